@@ -70,6 +70,9 @@ impl Stack {
         self.0.truncate(1);
         self.0[0].evalled_values.truncate(1);
         self.0[0].bindings.block_bindings.truncate(1);
+        // Discard the rest of the evaluation we're abandoning, so
+        // that :resume after :abort has nothing to continue.
+        self.0[0].exprs_to_eval.clear();
     }
 
     pub(crate) fn type_bindings(&self) -> TypeVarEnv {
